@@ -75,6 +75,10 @@ func extraSuite(name string, g *gen, e *emitter, n int) bool {
 		suiteACRHX(e, n)
 	case "treex":
 		suiteTreeX(e, n)
+	case "validatex":
+		suiteValidateX(e, n)
+	case "servex":
+		suiteServeX(e, n)
 	default:
 		return false
 	}
